@@ -231,6 +231,7 @@ def prebuild(res, notes):
     """Compile the Send + Sync probe crate against /repo's working tree. A compile error that names
     Send / Sync is reported as a C05 violation; any other build failure is inconclusive."""
     import runner
+    runner._alt_repo()
     d = os.path.join(runner.HARNESS, "sendsync")
     p = subprocess.run(["cargo", "check", "--offline", "--target-dir", runner.TARGET], cwd=d, env=runner.cargo_env(),
                        stdout=subprocess.PIPE, stderr=subprocess.STDOUT, text=True)
